@@ -275,8 +275,8 @@ def coll_exprs(h, steps):
         if o2m and lb is not None and o2m_repaired():
             OB = '(mkos %s %s %s)' % (R, S, nl(lb)); OA = '(mkos %s %s %s)' % (RA, SA, nl(la))
             if k == 'load_item': tr = 'os_same (query_item %d %s) %s' % (op[1], OB, OA)
-            elif k == 'add': tr = 'os_same (o_add %d %s) %s' % (op[1], OB, OA)
-            elif k == 'remove': tr = 'os_same (o_remove %d %s) %s' % (op[1], OB, OA)
+            elif k == 'add': tr = 'os_same_ext (o_add %d %s) %s' % (op[1], OB, OA)
+            elif k == 'remove': tr = 'os_same_ext (o_remove %d %s) %s' % (op[1], OB, OA)
             elif k == 'flush' and sb is not None and (sb['added'] or sb['removed']): tr = 'os_same (o_flush %s) %s' % (OB, OA)
             else: tr = 'true'
             out.append((st, '(negb (linv_b %s)) || ((%s) && (%s) && linv_b %s)' % (OB, e, tr, OA)))
